@@ -598,3 +598,38 @@ func (g *Gen) constBoundary(d int) []Stmt {
 	}
 	return out
 }
+
+// rawsetChain: rawset returns its table (chaining, `return rawset(self, k, v)[k]` in a memoizing
+// __index handler whose raw store bypasses __newindex); setmetatable with the second argument
+// missing is an error that leaves the metatable in place.
+func (g *Gen) rawsetChain(d int) []Stmt {
+	g.use("meta-rawset-result")
+	t, m := g.fresh("rs"), g.fresh("rm")
+	k1, k2 := g.litInt(), g.litInt()
+	memo := &Func{Params: []string{"self", "k"}, Body: []Stmt{emit(str("miss"), v("k")),
+		ret(&Index{E: call("rawset", v("self"), v("k"), bin("..", str("v"), v("k"))), K: v("k")})}}
+	ni := &Func{Params: []string{"self", "k", "x"}, Body: []Stmt{emit(str("newindex-must-not-run"))}}
+	return []Stmt{
+		local1(t, &Table{}),
+		emit(call("select", str("#"), call("rawset", v(t), k1, g.litInt())), bin("==", call("rawset", v(t), k2, g.litInt()), v(t))),
+		emit(&Index{E: call("rawset", call("rawset", &Table{}, num(1), str("a")), num(2), str("b")), K: num(1 + float64(g.R.Intn(2)))}),
+		local1(m, call("setmetatable", &Table{}, &Table{Items: []TItem{{Kind: 1, Name: "__index", E: memo}, {Kind: 1, Name: "__newindex", E: ni}}})),
+		emit(&Index{E: v(m), K: k1}, &Index{E: v(m), K: k1}, call("rawget", v(m), k1)),
+		emit(bin("==", call("pcall", v("setmetatable"), v(m)), &False{}), &Index{E: v(m), K: k2}),
+	}
+}
+
+// xpcallCallable: xpcall does not type-check its first argument: a callable table is called through
+// __call inside the protected call, a non-callable value is an error the handler receives.
+func (g *Gen) xpcallCallable(d int) []Stmt {
+	g.use("meta-xpcall-callable")
+	c := g.fresh("xc")
+	h := &Func{Params: []string{"e"}, Body: []Stmt{emit(str("handler"), call("type", v("e"))), ret(str("h"))}}
+	bad := []Expr{num(42), &Table{}, &Nil{}, str("s")}[g.R.Intn(4)]
+	return []Stmt{
+		local1(c, call("setmetatable", &Table{}, &Table{Items: []TItem{{Kind: 1, Name: "__call",
+			E: &Func{Params: []string{"self"}, Vararg: true, Body: []Stmt{emit(str("called"), call("type", v("self")), call("select", str("#"), &Varargs{})), ret(g.litInt(), g.litInt())}}}}})),
+		emit(call("xpcall", v(c), h)),
+		emit(call("xpcall", bad, h)),
+	}
+}
